@@ -29,6 +29,7 @@ struct File
 static std::map<std::string, File>* g_files;
 static std::map<int, ino_t>* g_open;   // fd -> inode of the memfd it was opened on
 static Faults g_faults;
+static unsigned g_fd_limit = 0;
 static Counters g_counters;
 static bool g_in_sim = false;	// re-entrancy guard (our own bookkeeping must not be faulted)
 
@@ -75,6 +76,7 @@ void set_faults(const Faults& f)
 }
 void clear_faults() { g_faults = Faults(); }
 Counters& counters() { return g_counters; }
+void set_descriptor_limit(unsigned n) { g_fd_limit = n; }
 
 bool exists(const std::string& path) { return files().count(path) != 0; }
 std::vector<std::string> list()
@@ -133,6 +135,13 @@ static int open_sim(const char* path, int flags)
 		errno = EACCES;
 		return -1;
 	}
+	if(g_fd_limit && opened().size() >= g_fd_limit)
+	{
+		// the simulated process's descriptor table is full (a small RLIMIT_NOFILE): only code that forgets to close gets here
+		g_counters.emfile++;
+		errno = EMFILE;
+		return -1;
+	}
 	if(it == files().end())
 	{
 		if(!(flags & O_CREAT))
@@ -153,6 +162,8 @@ static int open_sim(const char* path, int flags)
 	if(fd >= 0)
 	{
 		opened()[fd] = it->second.ino;
+		if(opened().size() > g_counters.max_open)
+			g_counters.max_open = opened().size();
 		if(writing)
 			g_counters.opens_write++;
 		else
